@@ -83,11 +83,29 @@ where
 {
     let out = Arc::new(Shared::new(None));
     let out2 = out.clone();
-    let id = verif::task_insert(Box::pin(async move {
-        let v = fut.await;
-        *out2.get() = Some(v);
-    }));
+    // a named wrapper, not an `async move` block: a wrapping coroutine would nest the task future's
+    // state union inside its own (nothing read back from it would fold, see DESIGN section 2)
+    let id = verif::task_insert(Box::pin(TaskWrap { fut, out: out2 }));
     JoinHandle { id, out }
+}
+
+struct TaskWrap<F: Future> {
+    fut: F,
+    out: Arc<Shared<Option<F::Output>>>,
+}
+impl<F: Future> Future for TaskWrap<F> {
+    type Output = ();
+    fn poll(self: Pin<&mut Self>, cx: &mut Context<'_>) -> Poll<()> {
+        // SAFETY: `fut` is structurally pinned; it is never moved out of `self`
+        let this = unsafe { self.get_unchecked_mut() };
+        match unsafe { Pin::new_unchecked(&mut this.fut) }.poll(cx) {
+            Poll::Ready(v) => {
+                *this.out.get() = Some(v);
+                Poll::Ready(())
+            }
+            Poll::Pending => Poll::Pending,
+        }
+    }
 }
 
 /// Yield once to the executor.
